@@ -4,8 +4,13 @@ import MoreExec.Proofs.Retry.Cancel
 
 namespace MoreExec.Retry
 
+/-- delegate p.1, created for future p.2, is the delegate of a job of that future — in the list, or about to be appended by
+`_submit_now` (the window between its two sections) -/
+def LiveAt (s : St) (p : Nat × Nat) : Prop :=
+  (∃ j ∈ s.jobs, j.del = some p.1 ∧ j.fut = p.2) ∨ (∃ nj, s.submitting = some nj ∧ nj.del = some p.1 ∧ nj.fut = p.2)
+
 structure Inv2 (s : St) : Prop where
-  live : ∀ p ∈ s.delFut, p.1 ∉ s.delDone → ∃ j ∈ s.jobs, j.del = some p.1 ∧ j.fut = p.2
+  live : ∀ p ∈ s.delFut, p.1 ∉ s.delDone → LiveAt s p
   canc : ∀ d ∈ s.delCancelled, d ∈ s.delDone
   decd : ∀ p ∈ s.decs, p.1 ∈ s.delDone
 
@@ -24,15 +29,26 @@ theorem lookup_mem {α : Type} (l : List (Nat × α)) (d : Nat) (v : α) (h : l.
     · exact List.mem_cons_of_mem _ (ih h)
 
 /-- erasing a job whose delegate (if any) is done keeps every live delegate's job -/
-theorem live_erase (s : St) (j : Job) (h : ∀ p ∈ s.delFut, p.1 ∉ s.delDone → ∃ x ∈ s.jobs, x.del = some p.1 ∧ x.fut = p.2)
+theorem live_erase (s : St) (j : Job) (h : ∀ p ∈ s.delFut, p.1 ∉ s.delDone → LiveAt s p)
     (hd : ∀ d, j.del = some d → d ∈ s.delDone) :
-    ∀ p ∈ s.delFut, p.1 ∉ s.delDone → ∃ x ∈ s.jobs.erase j, x.del = some p.1 ∧ x.fut = p.2 := by
+    ∀ p ∈ s.delFut, p.1 ∉ s.delDone →
+      (∃ x ∈ s.jobs.erase j, x.del = some p.1 ∧ x.fut = p.2) ∨ (∃ nj, s.submitting = some nj ∧ nj.del = some p.1 ∧ nj.fut = p.2) := by
   intro p hp hnd
-  obtain ⟨x, hx, hxd, hxf⟩ := h p hp hnd
-  have hne : x ≠ j := by
-    intro e; subst e
-    exact hnd (hd _ hxd)
-  exact ⟨x, (List.mem_erase_of_ne hne).mpr hx, hxd, hxf⟩
+  cases h p hp hnd with
+  | inl hl =>
+    obtain ⟨x, hx, hxd, hxf⟩ := hl
+    have hne : x ≠ j := by
+      intro e; subst e
+      exact hnd (hd _ hxd)
+    exact Or.inl ⟨x, (List.mem_erase_of_ne hne).mpr hx, hxd, hxf⟩
+  | inr hr => exact Or.inr hr
+
+/-- the same, followed by an append -/
+theorem live_erase_append (s : St) (j nj : Job) (h : ∀ p ∈ s.delFut, p.1 ∉ s.delDone → LiveAt s p)
+    (hd : ∀ d, j.del = some d → d ∈ s.delDone) :
+    ∀ p ∈ s.delFut, p.1 ∉ s.delDone →
+      (∃ x ∈ s.jobs.erase j ++ [nj], x.del = some p.1 ∧ x.fut = p.2) ∨ (∃ nj, s.submitting = some nj ∧ nj.del = some p.1 ∧ nj.fut = p.2) :=
+  fun p hp hnd => (live_erase s j h hd p hp hnd).imp (fun ⟨x, hx, hxd⟩ => ⟨x, List.mem_append_left _ hx, hxd⟩) id
 
 theorem inv2_step (s : St) (a : Act) (s' : St) (hi : Inv2 s) (h : step s a = some s') : Inv2 s' := by
   obtain ⟨h1, h2, h3⟩ := hi
@@ -44,13 +60,12 @@ theorem inv2_step (s : St) (a : Act) (s' : St) (hi : Inv2 s) (h : step s a = som
     · cases h
       refine ⟨?_, h2, h3⟩
       intro p hp hnd
-      obtain ⟨x, hx, hxd⟩ := h1 p hp hnd
-      exact ⟨x, List.mem_append_left _ hx, hxd⟩
+      exact (h1 p hp hnd).imp (fun ⟨x, hx, hxd⟩ => ⟨x, List.mem_append_left _ hx, hxd⟩) id
   | submitNow j =>
     simp only [step] at h
     split at h
     · rename_i hg
-      obtain ⟨hj, hdel, _, _, _⟩ := hg
+      obtain ⟨hj, hdel, _, _, _, hnone⟩ := hg
       split at h
       · cases h
         exact ⟨live_erase s j h1 (by intro d hd; rw [hdel] at hd; cases hd), h2, h3⟩
@@ -60,11 +75,26 @@ theorem inv2_step (s : St) (a : Act) (s' : St) (hi : Inv2 s) (h : step s a = som
         simp only [List.mem_append, List.mem_singleton] at hp
         cases hp with
         | inl hp =>
-          obtain ⟨x, hx, hxd⟩ := live_erase s j h1 (by intro d hd; rw [hdel] at hd; cases hd) p hp hnd
-          exact ⟨x, List.mem_append_left _ hx, hxd⟩
+          cases live_erase s j h1 (by intro d hd; rw [hdel] at hd; cases hd) p hp hnd with
+          | inl hl => exact Or.inl hl
+          | inr hr => obtain ⟨nj, hnj, _⟩ := hr; rw [hnone] at hnj; cases hnj
         | inr hp =>
           subst hp
-          exact ⟨_, List.mem_append_right _ (List.mem_singleton.mpr rfl), rfl, rfl⟩
+          exact Or.inr ⟨_, rfl, rfl, rfl⟩
+    · cases h
+  | submitApp =>
+    simp only [step] at h
+    split at h
+    · rename_i nj hnj
+      cases h
+      refine ⟨?_, h2, h3⟩
+      intro p hp hnd
+      cases h1 p hp hnd with
+      | inl hl => obtain ⟨x, hx, hxd⟩ := hl; exact Or.inl ⟨x, List.mem_append_left _ hx, hxd⟩
+      | inr hr =>
+        obtain ⟨nj', hnj', hd'⟩ := hr
+        rw [hnj] at hnj'; cases hnj'
+        exact Or.inl ⟨nj, List.mem_append_right _ (List.mem_singleton.mpr rfl), hd'⟩
     · cases h
   | discard j =>
     simp only [step] at h
@@ -129,10 +159,8 @@ theorem inv2_step (s : St) (a : Act) (s' : St) (hi : Inv2 s) (h : step s a = som
       cases h
       obtain ⟨_, hjdel⟩ := jobOfDel_mem hjd
       have hdd : d ∈ s.delDone := h3 _ (lookup_mem _ _ _ hdec)
-      refine ⟨?_, h2, fun p hp => h3 p (List.mem_filter.mp hp).1⟩
-      intro p hp hnd
-      obtain ⟨x, hx, hxd⟩ := live_erase s j h1 (by intro d' hd'; rw [hjdel] at hd'; cases hd'; exact hdd) p hp hnd
-      exact ⟨x, List.mem_append_left _ hx, hxd⟩
+      exact ⟨live_erase_append s j _ h1 (by intro d' hd'; rw [hjdel] at hd'; cases hd'; exact hdd), h2,
+             fun p hp => h3 p (List.mem_filter.mp hp).1⟩
     · cases h
   | cbFinal d =>
     simp only [step] at h
@@ -157,10 +185,13 @@ theorem inv2_step (s : St) (a : Act) (s' : St) (hi : Inv2 s) (h : step s a = som
         · cases h
           refine ⟨?_, h2, h3⟩
           intro p hp hnd
-          obtain ⟨x, hx, hxd, hxf⟩ := h1 p hp hnd
-          refine ⟨_, List.mem_map_of_mem (f := fun x => if x = j then { x with stop := true } else x) hx, ?_, ?_⟩
-          · split <;> simpa using hxd
-          · split <;> simpa using hxf
+          cases h1 p hp hnd with
+          | inr hr => exact Or.inr hr
+          | inl hl =>
+            obtain ⟨x, hx, hxd, hxf⟩ := hl
+            refine Or.inl ⟨_, List.mem_map_of_mem (f := fun x => if x = j then { x with stop := true } else x) hx, ?_, ?_⟩
+            · split <;> simpa using hxd
+            · split <;> simpa using hxf
     · cases h
   | cancelDel f b =>
     simp only [step] at h
